@@ -390,6 +390,28 @@ def gen_minor(rng):
     return [q, e, inc, rng.uniform(0, 360), rng.uniform(0, 360), T, T + dt]
 
 
+def gen_later_return(rng):
+    """A short-period near-parabolic ellipse (e 0.98..0.99, q 0.1..0.2 AU:
+    period 11 to 50 years) asked about around one of its *other* perihelion
+    passages inside the +-50 year window, one to four revolutions from the
+    stated one.  The unchanged tree refuses these (the series is entered with
+    the full time since the stated perihelion and does not converge, a
+    documented ValueError); an answer, if one is given, is judged like any
+    other against the two-body propagator."""
+    q = rng.uniform(0.1, 0.2)
+    e = rng.uniform(0.98, 0.99)
+    a = q / (1.0 - e)
+    P = 365.2568983263281 * a ** 1.5
+    nmax = int(50 * 365.25 / P)
+    if nmax < 1:
+        return None
+    n = rng.choice((-1, 1)) * rng.randrange(1, min(4, nmax) + 1)
+    T = jd_of_year(rng.uniform(1950, 2050))
+    dt = n * P + rng.choice((rng.uniform(-40, 40), rng.uniform(-5, 5)))
+    return [q, e, rng.uniform(0, 180), rng.uniform(0, 360),
+            rng.uniform(0, 360), T, T + dt]
+
+
 def gen_close_approach(rng):
     """A minor body on an elliptic orbit that passes within 0.0003..0.002 AU
     of the Earth (the library's own Sun vector reversed) at the query epoch:
@@ -539,3 +561,11 @@ def run(mon, spec):
             mon.error("near-parabolic generator",
                       RuntimeError("%d of %d near-parabolic cases refused"
                                    % (ref, ref + ans)))
+        # (after the ratio above: these are refused on the unchanged tree)
+        for _ in range(max(40, spec["n"] // 8)):
+            p = gen_later_return(rng)
+            if p is not None:
+                mon.begin("minor", p)
+                case_minor(mon, *p)
+                mon.cls("near-parabolic-around-a-later-perihelion",
+                        tuple(p), p)
